@@ -125,6 +125,32 @@ class Zoo:
         self.recurrent = True
         self.finish(layer, DelayAdjustedSTDP(lr_pos=0.05, lr_neg=-0.03, tc_pos=4.0, tc_neg=3.0, inplace=self.inplace), [layer.feedfwd_cell])
 
+    def build_dense_delta_qif_dastdpd(self):
+        from inferno.learn import DelayAdjustedSTDPD
+        conn = LinearDense((2,), (2,), DT, synapse=DeltaCurrent.partialconstructor(6.0, inplace=self.inplace), delay=3.0, batch_size=1,
+                           weight_init=lambda w: torch.tensor([[1.0, 2.0], [2.0, 1.0]]), delay_init=lambda d: torch.tensor([[0.5, 1.0], [2.0, 1.5]]))
+        layer = Serial(conn, self.neuron("QIF", 2, 1.0))
+        self.n_in = 2
+        self.finish(layer, DelayAdjustedSTDPD(lr_neg=-0.05, lr_pos=0.03, tc_neg=3.0, tc_pos=4.0, inplace=self.inplace), [layer.cell])
+
+    def build_direct_exp_glif2_mstdp(self):
+        from inferno.learn import MSTDP
+        conn = LinearDirect((3,), DT, synapse=SingleExponentialCurrent.partialconstructor(8.0, 2.0, inplace=self.inplace), delay=2.0, batch_size=1,
+                            weight_init=lambda w: torch.tensor([1.5, 1.0, 2.0]), delay_init=lambda d: torch.tensor([0.0, 2.0, 1.0]))
+        layer = Serial(conn, self.neuron("GLIF2", 3, 1.0))
+        self.n_in = 3
+        self.signal = True
+        self.finish(layer, MSTDP(0.05, -0.03, 4.0, 3.0, delayed=True), [layer.cell])
+
+    def build_dense_dexp_eif_dakernel(self):
+        from inferno.learn import DelayAdjustedKernelSTDP
+        conn = LinearDense((2,), (3,), DT, synapse=DoubleExponentialCurrent.partialconstructor(8.0, 4.0, 1.0, inplace=self.inplace), delay=2.0, batch_size=1,
+                           weight_init=lambda w: torch.tensor([[1.0, 2.0], [2.0, 1.0], [1.5, 1.5]]), delay_init=lambda d: torch.tensor([[0.0, 1.0], [2.0, 1.0], [1.0, 0.0]]))
+        layer = Serial(conn, self.neuron("EIF", 3, 1.0))
+        self.n_in = 2
+        self.finish(layer, DelayAdjustedKernelSTDP(exp_stdp_post_kernel, exp_stdp_pre_kernel, dict(learning_rate=torch.tensor(0.05), time_constant=torch.tensor(4.0)),
+                                                  dict(learning_rate=torch.tensor(-0.03), time_constant=torch.tensor(3.0)), inplace=self.inplace), [layer.cell])
+
     def build_reducers(self):
         class Holder(inferno.Module):
             pass
@@ -204,6 +230,7 @@ class Zoo:
             m.load_state_dict(sd[k])
 
 
+ZOO_EXTRA = ("dense_delta_qif_dastdpd", "direct_exp_glif2_mstdp", "dense_dexp_eif_dakernel")
 ZOO = ("dense_exp_lif_stdp", "direct_delta_alif_triplet", "lateral_dexp_adex_mstdpet", "conv_deltaplus_izh_kernel", "biclique_homeostasis",
        "recurrent_dastdp", "reducers", "classifier")
 
@@ -289,7 +316,7 @@ def shard(name, inplace):
 
 def run(rep):
     jobs = []
-    for name in ZOO:
+    for name in (ZOO + ZOO_EXTRA if rep.tier != "quick" else ZOO + ZOO_EXTRA[:1]):
         for inplace in (False, True):
             if name == "classifier" and inplace:
                 continue
